@@ -80,6 +80,32 @@ def _work(args):
     return idx, [o.line() for o in obs], fails
 
 
+def stop_then_restart(hist):
+    """Scripted episodes are woven in at random positions; whatever landed between a stop and its restart is
+    moved in front of the stop (a stopped gateway is not used any more until it is started again)."""
+    out, i = [], 0
+    while i < len(hist):
+        if hist[i][0] == "X":
+            j = i + 1
+            while j < len(hist) and hist[j][0] not in ("R", "X"):
+                j += 1
+            if j < len(hist) and hist[j][0] == "R":
+                out.extend(hist[i + 1:j])
+                out.extend([hist[i], hist[j]])
+                i = j + 1
+                continue
+        out.append(hist[i])
+        i += 1
+    return out
+
+
+def repeat_tail(version, hist):
+    """search suffix: the value reports and value requests of the history once more (what a node does after a
+    restart of the gateway: it carries on)"""
+    tail = [op for op in hist if op[0] == "L" and len(op[1].split(";")) == 6 and op[1].split(";")[2] in ("1", "2")]
+    return tail[-10:]
+
+
 def make_cases(prop, tier, seed, cfg):
     rng = random.Random(seed * 1000003 + int(prop[1:]))
     cases = []
@@ -96,7 +122,7 @@ def make_cases(prop, tier, seed, cfg):
                               bias=cfg.get("bias"))
         for extra in cfg.get("post", []):
             hist = extra(rng, version, hist)
-        cases.append((version, kind, persist, hist, f"gen{i}"))
+        cases.append((version, kind, persist, stop_then_restart(hist), f"gen{i}"))
     return cases
 
 
@@ -143,6 +169,7 @@ def run_family(prop, tier, seed, driver, cfg, relevant, extra_oracle=None):
     results.sort()
     proj = PROJECTIONS[prop]
     lines, meta = [], []
+    elsewhere = {}       # case index -> {op index -> what the oracle filed there under another property's name}
     for (i, impl_lines, fails), case in zip(results, cases):
         version, kind, persist, hist, name = case
         res.evaluations += len(hist)
@@ -155,6 +182,7 @@ def run_family(prop, tier, seed, driver, cfg, relevant, extra_oracle=None):
             fails = list(fails) + [dict(f, prop=prop) for f in extra_oracle(hist, impl_lines)]
         for f in fails:
             if f["prop"] != prop:
+                elsewhere.setdefault(i, {}).setdefault(f["at"], f)
                 continue
             res.count("oracle:" + f["key"]["kind"])
             if len([x for x in res.oracle_failures if x["key"] == f["key"]]) == 0:
@@ -188,6 +216,17 @@ def run_family(prop, tier, seed, driver, cfg, relevant, extra_oracle=None):
                 if mo is None or io is None or proj(mo) != proj(io):
                     bad_hist.add(i)
                     version, kind, persist, hist, name = cases[i]
+                    other = elsewhere.get(i, {}).get(j)
+                    if other is not None and mo is not None and io is not None and len(res.oracle_failures) < 30:
+                        # the code departs from the prescribed behaviour at this very step (the oracle filed it under
+                        # another property) and the departure shows through this property's projection
+                        res.count(f"oracle:{other['key'].get('kind')}@{other['prop']}")
+                        res.oracle_failures.append({
+                            "key": dict(other["key"], filed_under=other["prop"]),
+                            "what": (f"{other['what']} — step {j}, visible through {prop}'s projection: model "
+                                     f"{str(proj(mo))[:160]}, code {str(proj(io))[:160]}")[:600],
+                            "replay": {"version": version, "kind": kind, "persist": persist,
+                                       "hist": [encode_op(o) for o in hist[: j + 1]], "case": name}})
                     res.corr_diffs.append({
                         "name": f"{prop}-projection", "case": {"case": name, "version": version, "kind": kind,
                                                                 "persist": persist, "op_index": j,
@@ -207,12 +246,15 @@ def run_family(prop, tier, seed, driver, cfg, relevant, extra_oracle=None):
                         tried += 1
                         try:
                             obs2, _ = gw.run_history(h2, version, kind, persist)
-                            fails2 = [f for f in gw_spec.judge(h2, obs2, version, kind, persist) if f["prop"] == prop]
+                            all2 = gw_spec.judge(h2, obs2, version, kind, persist)
+                            # what the oracle finds on the extended history counts whichever property it is filed
+                            # under: the search only runs after a disagreement seen through this property's projection
+                            fails2 = [f for f in all2 if f["prop"] == prop] or [f for f in all2 if f["at"] > j]
                         except Exception:  # noqa: BLE001
                             fails2 = []
                         if fails2:
                             f = fails2[0]
-                            small = shrink(prop, version, kind, persist, h2[: f["at"] + 1], f["key"])
+                            small = shrink(f["prop"], version, kind, persist, h2[: f["at"] + 1], f["key"])
                             res.oracle_failures.append({
                                 "key": f["key"], "what": f["what"][:300] + " (found by searching around a model/code disagreement)",
                                 "replay": {"version": version, "kind": kind, "persist": persist,
